@@ -320,6 +320,14 @@ class Analysis:
                 out.add("OverflowError")      # date / datetime / timedelta arithmetic leaves the representable range
                 self.assumed_used.add("+ - * and unary minus on values that may be date / datetime / timedelta objects raise OverflowError at most "
                                       "(TypeError for mixed operand types is a precondition: operands come from the same decoder)")
+        if isinstance(e, ast.BinOp) and isinstance(e.op, ast.Sub) and self.maybe_temporal(e.left, ctx) and self.maybe_temporal(e.right, ctx) \
+                and not (self.bounded(e.left, ctx) and self.bounded(e.right, ctx)):
+            out.add("TypeError")              # aware - naive datetime, date - datetime
+        if isinstance(e, ast.Compare) and any(isinstance(o, (ast.Lt, ast.LtE, ast.Gt, ast.GtE)) for o in e.ops):
+            operands = [e.left] + list(e.comparators)
+            if all(self.maybe_temporal(x, ctx) for x in operands) and not all(self.bounded(x, ctx) for x in operands):
+                out.add("TypeError")          # ordering an aware against a naive datetime, a date against a datetime
+                self.assumed_used.add("< <= > >= between values that may both be date / datetime objects raise TypeError at most")
         if isinstance(e, ast.UnaryOp) and isinstance(e.op, ast.USub) and self.maybe_temporal(e.operand, ctx) and not self.bounded(e.operand, ctx):
             out.add("OverflowError")          # -timedelta: the range of timedelta is not symmetric
         for c in ast.iter_child_nodes(e):
